@@ -81,7 +81,10 @@ class Ctx:
                 "faults": {k: list(v) for k, v in self.faults.items()},
                 "conclusive": self.conclusive, "inconclusive": self.inconclusive,
                 "sim": dict(self.sim), "features": self.features, "sites": sorted(self.sites),
-                "benign": dict(self.benign), "digest": digest, "n_events": self.seq}
+                "benign": dict(self.benign), "digest": digest, "n_events": self.seq,
+                # per-event fingerprints: locate the first differing event if two runs of one episode ever disagree
+                "evh": [hashlib.sha256(json.dumps(x, sort_keys=True, default=str).encode()).hexdigest()[:6]
+                        for x in self.log]}
 
 
 def execute_episode(module, ep, keep_log=False):
@@ -546,13 +549,48 @@ def _run_check(prop, tier, verif_seed, master, module, lanes, n_total, wall_cap,
         sample = [o["idx"] for o in results[::step]][:k]
         again, _ = lanes.map_episodes(prop, master, tier, sample)
         first = {o["idx"]: o for o in results}
+        if os.environ.get("PPSIM_SELFTEST_INJECT") and sample:
+            # test hook for the arbitration below: pretend the first run of one sampled episode deviated
+            first[sample[0]] = dict(first[sample[0]], digest="injected-deviation")
         for o in again:
             det["sampled"] += 1
             if o.get("digest") == first[o["idx"]].get("digest"):
                 det["same_process_pool"] += 1
+                continue
+            # arbitration: two brand-new lane processes (no episode history at all) execute the episode once more.
+            # If they agree with each other, their outcome is the episode's outcome: the deviating run was
+            # influenced by what its long-lived lane had executed before (reported and counted, the episode is
+            # re-judged from the clean run).  If they disagree, the execution itself is not a function of the seed.
+            i = o["idx"]
+            arb = []
+            for _ in range(2):
+                fl = Lanes(module, n=1)
+                try:
+                    r_, _ = fl.map_episodes(prop, master, tier, [i], keep_log=True)
+                finally:
+                    fl.close()
+                arb.append(r_[0])
+            a, b = first[i], o
+            dev = next((j for j, (x, y) in enumerate(zip(a.get("evh") or [], b.get("evh") or [])) if x != y),
+                       min(len(a.get("evh") or []), len(b.get("evh") or [])))
+            if arb[0].get("digest") == arb[1].get("digest") and arb[0].get("digest") in (a.get("digest"), b.get("digest")):
+                which = "first" if arb[0].get("digest") != a.get("digest") else "repeated"
+                line = (arb[0].get("log") or [])[dev:dev + 1]
+                det["lane_history_dependent"] = det.get("lane_history_dependent", 0) + 1
+                print(f"NOTE episode {i}: its {which} run in a long-lived lane deviates from two clean-process runs "
+                      f"(which agree) from event {dev} on; clean run has {json.dumps(line, default=str)[:300]}; the "
+                      f"episode is judged from the clean run")
+                clean = arb[0]
+                clean["idx"] = i
+                clean.setdefault("ep", a.get("ep"))
+                for j_, r0 in enumerate(results):
+                    if r0["idx"] == i:
+                        results[j_] = clean
+                first[i] = clean
             else:
                 det["mismatches"] += 1
-                print(f"NONDETERMINISM episode {o['idx']}: digests differ between two runs")
+                print(f"NONDETERMINISM episode {i}: digests differ between runs, also in clean processes "
+                      f"({[x.get('digest', '')[:10] for x in (a, b, *arb)]}), first deviation at event {dev}")
         fresh = sample[:8 if tier == "quick" else 48]
         env = dict(os.environ, PYTHONHASHSEED="1", PPSIM_LANES="4", VERIF_SEED=str(verif_seed))
         p = subprocess.run([sys.executable, os.path.join(VERIF, "ppsim_cli.py"), "digests", prop, tier,
